@@ -1,7 +1,7 @@
 SPECIFICATION Spec
 CONSTANTS
   Dev = "rsv1-on-continuation"
-  MsgLists <- McMsgLists
+  MsgLists <- McDevMsgLists
   FragLens <- McFragLens
   CtlLens = {0, 125}
   MaxCtl = 1
